@@ -158,6 +158,30 @@ def gen_cases(ctx):
         for storage in ("se3", "quat"):
             ref, est = gen_pair(r, N, "generic", 0.1, 1.0)
             yield {"kind": "tiny", "op": "origin", "ref": ref, "est": est, "storage": storage, "noise": 0.1, "ratio": 1.0, "n": -1}
+    # origin alignment in UTM-like coordinates: large common offset (1e5..1e7), origins only 1e-4..10 m apart,
+    # first orientations equal or slightly different
+    for j in range(10 if not ctx.thorough else 60):
+        N = r.randint(2, 12)
+        ref, _ = gen_pair(r, N, "generic", 0.0, 1.0)
+        off = [r.choice([-1, 1]) * logu(r, 1e5, 1e7), r.choice([-1, 1]) * logu(r, 1e5, 1e7), r.uniform(-500, 3000)]
+        if j == 0:
+            off = [4.5e5, 5.4e6, 312.0]
+        d = [r.choice([-1, 1]) * logu(r, 1e-4, 10.0) * w for w in (1.0, r.random(), r.random())]
+        ang = r.choice([0.0, 0.0, logu(r, 1e-7, 1e-3)])
+        D = np.eye(4)
+        D[:3, :3] = q2m(small_q(r, ang))
+        refm = [mat(p) for p in ref]
+        c0 = refm[0][:3, 3].copy()
+        for m in refm:
+            m[:3, 3] = m[:3, 3] - c0 + np.array(off)
+        estm = []
+        for m in refm:
+            e = m.copy()
+            e[:3, :3] = m[:3, :3] @ D[:3, :3] if ang else m[:3, :3]
+            e[:3, 3] = m[:3, 3] + np.array(d)
+            estm.append(e)
+        yield {"kind": "utm-origin", "op": "origin", "ref": [rows(m) for m in refm], "est": [rows(m) for m in estm],
+               "storage": r.choice(STORAGES), "noise": 0.0, "ratio": 1.0, "n": -1, "origin_gap": max(abs(v) for v in d), "angle": ang}
     ops = ["align", "align", "align", "origin", "ape", "rpe"]
     for k in range(budget):
         op = ops[k % len(ops)]
@@ -590,14 +614,24 @@ def judge(ctx, case, impl, outs, extra):
         cmp_poses(ctx, case, "align_origin poses_se3", post["poses"], parse_poses(ps), magT + float(np.abs(x_all).max()) * 3)
         if not impl["T_bottom_ok"]:
             ctx.fail(case, "valid-poses", "origin transformation has a bad bottom row")
-        # oracle: first pose onto the reference's first pose; relative poses preserved; moved by the returned matrix
-        if float(np.abs(P1[0] - Rf[0]).max()) > 1e-9 * (1 + magT):
-            ctx.fail(case, "origin-first-pose", f"first pose after origin alignment deviates from the reference's first pose by {float(np.abs(P1[0] - Rf[0]).max()):.3e}")
+        # oracle: first pose onto the reference's first pose; relative poses preserved; moved by the returned matrix.
+        # Tolerances are a few hundred ulp of the coordinates involved (large common offsets: ulp(1e7) = 2e-9), so that
+        # "origins a few mm / m apart in UTM coordinates" cannot pass as aligned.
+        pmag = float(np.abs(x_all).max()) + float(np.abs(P1[:, :3, 3]).max()) + float(np.abs(y_all[0]).max())
+        tol_p, tol_r = 256 * U * (pmag + 1e-300), 1e-12
+        dp0 = float(np.abs(P1[0][:3, 3] - Rf[0][:3, 3]).max())
+        dr0 = float(np.abs(P1[0][:3, :3] - Rf[0][:3, :3]).max())
+        if dp0 > tol_p or dr0 > tol_r:
+            ctx.fail(case, "origin-first-pose", f"first pose after origin alignment deviates from the reference's first pose by "
+                                                f"{dp0:.3e} (position, allowed {tol_p:.1e}) / {dr0:.3e} (orientation)")
         for i in range(len(P0) - 1):
-            ra = np.linalg.inv(np.asarray(P0[i], dtype=float)) @ P0[i + 1]
-            rb = np.linalg.inv(np.asarray(P1[i], dtype=float)) @ P1[i + 1]
-            if float(np.abs(ra - rb).max()) > 1e-9 * (1 + magT + float(np.abs(x_all).max())) * 10:
-                ctx.fail(case, "origin-preserves-relative-poses", f"relative pose {i}->{i+1} changed by {float(np.abs(ra - rb).max()):.3e}")
+            def relp(A, B):
+                Ra = np.asarray(A[:3, :3], dtype=LD)
+                return Ra.T @ np.asarray(B[:3, :3], dtype=LD), Ra.T @ (np.asarray(B[:3, 3], dtype=LD) - np.asarray(A[:3, 3], dtype=LD))
+            (ra, ta), (rb, tb) = relp(P0[i], P0[i + 1]), relp(P1[i], P1[i + 1])
+            er, et = float(np.abs(ra - rb).max()), float(np.abs(ta - tb).max())
+            if er > tol_r or et > 4 * tol_p:
+                ctx.fail(case, "origin-preserves-relative-poses", f"relative pose {i}->{i+1} changed by {er:.3e} (rotation) / {et:.3e} (translation, allowed {4 * tol_p:.1e})")
                 break
         check_moved("applies-returned-similarity", T[:3, :3], T[:3, 3], 1.0)
         nontrivial = True
